@@ -21,6 +21,8 @@ pub fn run(o: &Opts) -> Report {
         let mut cy = extra("cy", "with-y"); cy.action = Some("setTrue"); cy.blacklist = vec!["cx".into()];
         let mut two = extra("two", "pair"); two.num_vals = Some((2, Some(2)));
         let mut few = extra("few", "atleast2"); few.num_vals = Some((2, None)); few.action = Some("append");
+        // a BOUNDED range: one value is too few, not too many
+        let mut r23 = extra("r23", "range23"); r23.num_vals = Some((2, Some(3))); r23.action = Some("append");
         let mut num = extra("num", "number"); num.vp = Some(VpS::I64(Some(-5), Some(10)));
         // possible values with upper-case letters: a suggestion must name one of them exactly
         let pv_names: Vec<(String, Vec<String>)> = if rng.chance(1, 2) { vec![("fast".into(), vec!["f".into()]), ("slow".into(), vec![])] } else { vec![("Fast".into(), vec!["f".into()]), ("SLOW".into(), vec![]), ("Medium-Rare".into(), vec![])] };
@@ -28,9 +30,9 @@ pub fn run(o: &Opts) -> Report {
         // an option that is required unless a GROUP is present (the group holds `cx`)
         let mut runl = extra("runl", "needs-unless"); runl.r_unless = vec!["ugrp".into()];
         cv.cmd.groups.push(GroupS { id: "ugrp".into(), args: vec!["cx".into()], multiple: true, ..Default::default() });
-        for a in [req, cx, cy, two, few, num, pv, runl] { cv.cmd.args.insert(0, a); }
-        // indices into cmd.args shifted by 8
-        cv.opts = cv.opts.iter().map(|i| i + 8).collect(); cv.flags = cv.flags.iter().map(|i| i + 8).collect(); cv.pos = cv.pos.iter().map(|i| i + 8).collect();
+        for a in [req, cx, cy, two, few, r23, num, pv, runl] { cv.cmd.args.insert(0, a); }
+        // indices into cmd.args shifted by 9
+        cv.opts = cv.opts.iter().map(|i| i + 9).collect(); cv.flags = cv.flags.iter().map(|i| i + 9).collect(); cv.pos = cv.pos.iter().map(|i| i + 9).collect();
         if !real_valid(&cv.cmd) { rep.count("invalid_definition(skipped)"); continue; }
         let longs: Vec<String> = cv.cmd.args.iter().flat_map(|a| a.long.iter().cloned().chain(a.aliases.iter().cloned())).chain(["help".to_string()]).chain(if cv.cmd.settings.has_version { vec!["version".to_string()] } else { vec![] }).collect();
         for _ in 0..6 {
@@ -50,6 +52,7 @@ pub fn run(o: &Opts) -> Report {
             if base.iter().any(|t| t == b"--with-x") { lines.push((with(&base, &["--with-y"]), Some(vec![ErrorKind::ArgumentConflict]), "add-conflicting")); }
             if !base.iter().any(|t| t == b"--pair") { lines.push((with(&base, &["--pair", "1", "--with-y"]).into_iter().filter(|t| t != b"--with-x").collect(), Some(vec![ErrorKind::WrongNumberOfValues]), "one-value-of-two")); }
             lines.push((with(&base, &["--atleast2", "1", "--with-y"]).into_iter().filter(|t| t != b"--with-x").collect(), Some(vec![ErrorKind::TooFewValues]), "too-few-values"));
+            lines.push((with(&base, &["--range23", "1", "--with-y"]).into_iter().filter(|t| t != b"--with-x").collect(), Some(vec![ErrorKind::TooFewValues]), "too-few-values-of-bounded-range"));
             lines.push((with(&base, &["--requirde-opt=z"]), Some(vec![ErrorKind::UnknownArgument]), "misspelt-flag"));
             lines.push((with(&base, &["--number=11"]).into_iter().filter(|t| t != b"--number=7").collect(), Some(vec![ErrorKind::ValueValidation]), "out-of-range"));
             let near = [format!("--mode={}", &first_pv[..first_pv.len() - 1]), "--mode=medium".to_string(), "--mode=slo".to_string(), "--mode=SLO".to_string(), "--mode=Medium-Rar".to_string()];
@@ -97,6 +100,40 @@ pub fn run(o: &Opts) -> Report {
                 rep.count(&format!("fault:{fault}"));
                 reqs.push(req); impls.push(canon);
             }
+        }
+    }
+    // required positionals that are all excused: by a present arg that conflicts with each of them, or by an exclusive one
+    for k in 0..(if o.thorough() { 400 } else { 60 }) {
+        let npos = 2 + k % 2;
+        let mut c = CmdS { name: "prog".into(), ..Default::default() };
+        let pos_ids: Vec<String> = (0..npos).map(|i| format!("p{i}")).collect();
+        let mut list = ArgS { id: "list".into(), long: Some("list".into()), action: Some("setTrue"), ..Default::default() };
+        match k % 3 { 0 => list.blacklist = pos_ids.clone(), 1 => list.exclusive = true, _ => { list.blacklist = pos_ids.clone(); list.short = Some('l'); } }
+        c.args.push(list);
+        if rng.chance(1, 2) { c.args.push(ArgS { id: "other".into(), long: Some("other".into()), action: Some("set"), ..Default::default() }); }
+        for id in &pos_ids { c.args.push(ArgS { id: id.clone(), required: true, ..Default::default() }); }
+        if !real_valid(&c) { rep.count("invalid_definition(skipped)"); continue; }
+        let t = |v: &[&str]| -> Vec<Vec<u8>> { v.iter().map(|x| x.as_bytes().to_vec()).collect() };
+        let all: Vec<&str> = ["prog", "a", "b", "c"][..npos + 1].to_vec();
+        let lines: Vec<(Vec<Vec<u8>>, Option<ErrorKind>, &str)> = vec![
+            (t(&["prog", "--list"]), None, "all-required-positionals-excused"),
+            (t(&all), None, "all-required-positionals-given"),
+            (t(&["prog", "a"]), Some(ErrorKind::MissingRequiredArgument), "required-positional-missing"),
+            (t(&["prog"]), Some(ErrorKind::MissingRequiredArgument), "required-positional-missing"),
+        ];
+        for (argv, expected, fault) in lines {
+            let (canon, _, err) = real_parse(&c, &argv);
+            let req = parse_request(&c, &argv);
+            match (&expected, &err) {
+                (None, Some(e)) => rep.oracle_fail("fault-free-line-rejected", &req, &format!("{fault}: {:?}: {:?}", e.kind(), show(&argv))),
+                (None, None) if !canon.starts_with("OK") => rep.oracle_fail("panic", &req, &canon),
+                (Some(k), None) => rep.oracle_fail("fault-not-rejected", &req, &format!("{fault}: expected {k:?}, accepted: {:?}", show(&argv))),
+                (Some(k), Some(e)) if *k != e.kind() => rep.oracle_fail("wrong-error-kind", &req, &format!("{fault}: expected {k:?}, got {:?}: {:?}", e.kind(), show(&argv))),
+                _ => {}
+            }
+            rep.case(&req, fault != "all-required-positionals-given");
+            rep.count(&format!("fault:{fault}"));
+            reqs.push(req); impls.push(canon);
         }
     }
     if o.driver != "none" {
